@@ -8,6 +8,7 @@ import (
 	"strconv"
 
 	"verifharness/drv/c15"
+	"verifharness/drv/c17"
 	"verifharness/drv/c19"
 	"verifharness/drv/c20"
 	"verifharness/drv/wire"
@@ -38,6 +39,10 @@ func main() {
 		wire.RunC02(os.Args[2])
 	case "c15":
 		c15.Run(os.Args[2], os.Args[3])
+	case "c17":
+		c17.Run(os.Args[3], os.Args[2])
+	case "c17conc":
+		c17.RunConc(os.Args[3], os.Args[2])
 	case "c19x":
 		a := os.Args
 		c19.Explicit(a[2], a[3], atoi(a[4]), atoi(a[5]), atoi(a[6]), a[7] == "1")
